@@ -104,11 +104,22 @@ PROPERTIES = {
     },
     "C10": {
         "decided_by": "Proved: restrict_petrinet_to_subspace: full characterisation of the node and edge sets of the result for an arbitrary (uninterpreted) "
-                      "net and subspace, all five loops with invariants, argument untouched; node_percolated_petri_net / node_percolated_network "
-                      "return a value that is a function of (global net, node space) regardless of cache state.",
+                      "net and subspace, all five loops with invariants, argument untouched; optimized_recursive_dnf_generator: the yielded clauses "
+                      "cover the BDD exactly (Shannon expansion on the chosen variable, for ANY choice of a support variable), mention only support "
+                      "variables, recursion terminates (support size); _create_transitions: exactly one transition per clause, named and attributed "
+                      "as the naming convention says, consuming / producing the places of the changed variable in the stated direction and reading "
+                      "the place of every other literal; network_to_petrinet (second contract `#structure`): the result consists of the two places "
+                      "of every variable and, for every variable with an update function f, the transitions of the clause lists of f & !x (up) and "
+                      "!f & x (down) - node by node and edge by edge; node_percolated_petri_net / node_percolated_network return a value that is a "
+                      "function of (global net, node space) regardless of cache state.",
         "bounded": "network_to_petrinet / percolate_network vs brute-force dynamics (AEON BDD operations dominate them)",
-        "excluded": ["network_to_petrinet / _create_transitions / percolate_network: assumed contracts; bounded stand-in only"],
-        "trusted": ["networkx DiGraph operations", "L5: the syntactic characterisation implies Encodes(restrict(p,T), N, S u T) (cited; bounded validation)"],
+        "excluded": ["percolate_network: assumed contract; bounded stand-in only",
+                     "that a net of the proved shape encodes the dynamics (Encodes) is lemma L4 over the Lean model (Biobalm/Petri.lean, Shannon.lean), "
+                     "not re-derived from the SMT characterisation"],
+        "trusted": ["networkx DiGraph operations", "L5: the syntactic characterisation implies Encodes(restrict(p,T), N, S u T) (cited; bounded validation)",
+                    "AEON BooleanNetwork / SymbolicContext / Bdd accessors (AX_AEON_NET, AX_BDD_SEM), transition-name injectivity (AX_TRNAME), "
+                    "attributes as functions of the node name (AX_ATTR)", "one trusted fragment of network_to_petrinet (rejection of parametrised networks, pinned by hash)",
+                    "def.DnfOf: the clause generator is a deterministic function of the BDD"],
     },
     "C11": {
         "decided_by": "Proved: postconditions of intersect / is_subspace / function_eval / percolate_space_strict / percolation_conflicts over the three-valued "
@@ -126,11 +137,15 @@ PROPERTIES = {
                       "expanded_attractor_sets() maps exactly the expanded nodes that own attractors to their cached sets; compute_attractors_symbolic "
                       "(second contract `#structure`): every seed is a tested candidate completed with the node's values, its set is the converted "
                       "forward closure of exactly that candidate, seeds keep the candidates' order, the single-candidate shortcut is only taken for a "
-                      "childless node when only seeds are wanted.",
+                      "childless node when only seeds are wanted; symbolic_attractor_fallback (second contract `#structure`): the set handed to AEON's "
+                      "attractor search is, stage by stage, the node's states minus its successors, minus (skip node) the regions shared with "
+                      "non-ancestor nodes whose cached candidates or seeds are the EMPTY list (rule pinned as written), reduced, minus the backward "
+                      "closure of the successors unless the node is minimal or nothing is left; seeds and sets are reported pairwise in AEON's order.",
         "bounded": "attractor sets vs brute-force terminal SCCs; symbolic fallback vs default pipeline",
         "excluded": [],
-        "trusted": ["the MEANING of compute_attractors_symbolic's result (system of representatives; call-site contract) and symbolic_attractor_fallback, "
-                    "sort_variable_list (assumed contracts)", "AEON vertex-set algebra and set conversions"],
+        "trusted": ["the MEANING of compute_attractors_symbolic's and symbolic_attractor_fallback's results (system of representatives; call-site "
+                    "contracts), sort_variable_list (assumed contracts)", "AEON vertex-set algebra, set conversions, transition_guided_reduction / "
+                    "xie_beerel / reach_bwd (uninterpreted)", "one trusted fragment of symbolic_attractor_fallback (picking a state of an attractor, pinned by hash)"],
     },
     "C13": {
         "decided_by": "Proved (termination variants discharged): symbolic_attractor_test main loop (lexicographic variant over set cardinalities), "
